@@ -16,16 +16,30 @@ def lname(n):
 
 
 class Printer:
-    def __init__(self, consts):
+    def __init__(self, consts, module=None, global_int=None, rename=None):
         self.consts = consts      # module-level int constants -> Lean names
         self.calls = set()
+        self.module = module      # ModuleInfo: to inline straight-line helper functions
+        self.global_int = global_int or (lambda name: None)   # value of other module-level int constants
+        self.rename = rename or {}
 
     def expr(self, e):
         if isinstance(e, ast.Constant) and isinstance(e.value, int) and not isinstance(e.value, bool):
             return "(%d : ℤ)" % e.value if e.value >= 0 else "(-%d : ℤ)" % -e.value
         if isinstance(e, ast.Name):
+            if e.id in self.rename:
+                return self.rename[e.id]
             if e.id in self.consts:
                 return self.consts[e.id]
+            if self.module is not None and e.id in self.module.assigns and e.id not in self.consts:
+                # another module-level constant (e.g. a hoisted 2*d): its defining expression, printed in place
+                try:
+                    return Printer(self.consts, self.module, self.global_int).expr(self.module.assigns[e.id])
+                except LeanGenError:
+                    pass
+            v = self.global_int(e.id)
+            if isinstance(v, int) and not isinstance(v, bool):
+                return "(%d : ℤ)" % v if v >= 0 else "(-%d : ℤ)" % -v
             return lname(e.id)
         if isinstance(e, ast.UnaryOp) and isinstance(e.op, ast.USub):
             return "(-%s)" % self.expr(e.operand)
@@ -50,11 +64,15 @@ class Printer:
                 return "((%s ^ (%s).toNat) %% %s)" % tuple(self.expr(a) for a in e.args)
         if isinstance(e, ast.Tuple):
             return "(" + ", ".join(self.expr(x) for x in e.elts) + ")"
-        if isinstance(e, ast.Compare) and len(e.ops) == 1:
-            a, b = self.expr(e.left), self.expr(e.comparators[0])
-            op = {ast.Eq: "=", ast.NotEq: "≠"}.get(type(e.ops[0]))
-            if op:
-                return "(%s %s %s)" % (a, op, b)
+        if isinstance(e, ast.Compare):
+            parts, left = [], e.left
+            for o, r in zip(e.ops, e.comparators):
+                op = {ast.Eq: "=", ast.NotEq: "≠"}.get(type(o))
+                if not op:
+                    raise LeanGenError("comparison operator")
+                parts.append("(%s %s %s)" % (self.expr(left), op, self.expr(r)))
+                left = r
+            return parts[0] if len(parts) == 1 else "(" + " ∧ ".join(parts) + ")"
         if isinstance(e, ast.BoolOp) and isinstance(e.op, ast.And):
             return "(" + " ∧ ".join(self.expr(v) for v in e.values) + ")"
         if isinstance(e, ast.Subscript) and isinstance(e.value, ast.Name) and isinstance(e.slice, ast.Constant):
@@ -62,9 +80,49 @@ class Printer:
         raise LeanGenError("expression %s" % ast.dump(e)[:80])
 
 
-def function_to_lean(fnode, consts, tuple_params):
+_INLINE_COUNTER = [0]
+
+
+def inline_helper(pr, call, lets):
+    """`helper(args)` for a straight-line module-level helper: returns the list of Lean expressions of its returned tuple
+    (or a single expression), appending the helper's locals (renamed) to `lets`"""
+    if pr.module is None or not isinstance(call.func, ast.Name) or call.func.id not in pr.module.functions:
+        raise LeanGenError("call of %s" % ast.unparse(call.func))
+    h = pr.module.functions[call.func.id].node
+    if call.keywords or h.args.vararg or h.args.kwarg or len(h.args.args) != len(call.args):
+        raise LeanGenError("helper call shape")
+    _INLINE_COUNTER[0] += 1
+    pre = "%s%d_" % (h.name.strip("_"), _INLINE_COUNTER[0])
+    ren = dict(pr.rename)
+    for a, v in zip(h.args.args, call.args):
+        nm = pre + lname(a.arg)
+        lets.append((nm, pr.expr(v)))
+        ren[a.arg] = nm
+    sub = Printer(pr.consts, pr.module, pr.global_int, ren)
+    for st in h.body:
+        if isinstance(st, ast.Expr) and isinstance(st.value, ast.Constant):
+            continue
+        if isinstance(st, ast.Assign) and len(st.targets) == 1 and isinstance(st.targets[0], ast.Name):
+            nm = pre + lname(st.targets[0].id)
+            lets.append((nm, sub.expr(st.value)))
+            sub.rename[st.targets[0].id] = nm
+            continue
+        if isinstance(st, ast.Return):
+            if isinstance(st.value, ast.Tuple):
+                return [sub.expr(x) for x in st.value.elts]
+            return sub.expr(st.value)
+        raise LeanGenError("helper %s: statement %s" % (h.name, type(st).__name__))
+    raise LeanGenError("helper %s: no return" % h.name)
+
+
+def is_helper_call(pr, e):
+    return isinstance(e, ast.Call) and isinstance(e.func, ast.Name) and pr.module is not None \
+        and e.func.id in pr.module.functions and e.func.id not in ("inv",)
+
+
+def function_to_lean(fnode, consts, tuple_params, module=None, global_int=None):
     """tuple_params: {param name: arity} for parameters that are coordinate tuples."""
-    pr = Printer(consts)
+    pr = Printer(consts, module, global_int)
     params = []
     body = list(fnode.body)
     unpacked = {}
@@ -95,6 +153,17 @@ def function_to_lean(fnode, consts, tuple_params):
     for st in body:
         if isinstance(st, ast.Expr) and isinstance(st.value, ast.Constant):
             continue
+        if isinstance(st, ast.Assign) and len(st.targets) == 1 and is_helper_call(pr, st.value):
+            r = inline_helper(pr, st.value, lets)
+            t = st.targets[0]
+            if isinstance(t, ast.Name) and not isinstance(r, list):
+                lets.append((lname(t.id), r))
+            elif isinstance(t, ast.Tuple) and isinstance(r, list) and len(r) == len(t.elts):
+                for tt, rr in zip(t.elts, r):
+                    lets.append((lname(tt.id), rr))
+            else:
+                raise LeanGenError("helper result shape")
+            continue
         if isinstance(st, ast.Assign) and len(st.targets) == 1 and isinstance(st.targets[0], ast.Name):
             lets.append((lname(st.targets[0].id), pr.expr(st.value)))
             continue
@@ -103,6 +172,10 @@ def function_to_lean(fnode, consts, tuple_params):
             for t, v in zip(st.targets[0].elts, st.value.elts):
                 lets.append((lname(t.id), pr.expr(v)))
             continue
+        if isinstance(st, ast.Return) and is_helper_call(pr, st.value):
+            r = inline_helper(pr, st.value, lets)
+            ret = "(" + ", ".join(r) + ")" if isinstance(r, list) else r
+            break
         if isinstance(st, ast.Return):
             ret = pr.expr(st.value)
             break
